@@ -58,8 +58,11 @@ RepMul(X, Y, k) == IF k = 0 THEN X ELSE RepMul(P400(MMul(X, Y)), Y, k - 1)
 \* one event: <<new element registers, new tangent registers, problems>>
 Step(s, e) ==
   LET g == e.g  E == s.e  T == s.t
-      SetE(r, X, n) == [E EXCEPT ![r] = [M |-> X, n |-> n]]
-      Res(r, X, n) == <<SetE(r, X, n), T, ElemChecks(e, e.out, X, n)>>
+      \* history lengths saturate at 10^8 (TLC integers are 32 bit; programs that keep composing a register with
+      \* itself double n at every step) - the bounds (n+1) 1e-14 / (n+1) 1e-13 are then 1e-6 / 1e-5
+      Sat(n) == IF n > 100000000 THEN 100000000 ELSE n
+      SetE(r, X, n) == [E EXCEPT ![r] = [M |-> X, n |-> Sat(n)]]
+      Res(r, X, n) == <<SetE(r, X, n), T, ElemChecks(e, e.out, X, Sat(n))>>
   IN CASE e.op = "reset" ->
             <<[r \in 0..(NE - 1) |-> [M |-> MId(Dim(g)), n |-> 0]], [r \in 0..(NT - 1) |-> VZero(Dof(g))], <<>>>>
        [] e.op = "sete" ->
@@ -78,7 +81,7 @@ Step(s, e) ==
        [] e.op = "pluseq" -> Res(e.dst, P400(MMul(E[e.dst].M, ExpM(GHat(g, T[e.a])))), E[e.dst].n + 2)
        [] e.op = "repeat" ->
             IF e.sub = "muleq"
-            THEN Res(e.dst, RepMul(E[e.dst].M, E[e.a].M, e.count), E[e.dst].n + e.count * (E[e.a].n + 1))
+            THEN Res(e.dst, RepMul(E[e.dst].M, E[e.a].M, e.count), E[e.dst].n + (IF E[e.a].n > 1000 THEN 100000000 ELSE e.count * (E[e.a].n + 1)))
             ELSE IF e.sub = "pluseq"
             THEN Res(e.dst, RepMul(E[e.dst].M, P400(ExpM(GHat(g, T[e.a]))), e.count), E[e.dst].n + 2 * e.count)
             ELSE <<E, T, Fail("TOOL.unknown_op", e.sub, "")>>
